@@ -906,9 +906,9 @@ def run(ctx):
         explore(ctx, h, drv, 3000, "main")
         explore(ctx, h, drv, 40, "big", big=True)
     else:
-        for i in range(8):
+        for i in range(16):
             explore(ctx, h, drv, 4000, "main%d" % i)
-        explore(ctx, h, drv, 400, "big", big=True)
+        explore(ctx, h, drv, 800, "big", big=True)
     if ctx.proof_broken or ctx.corr_broken:
         ctx.log("obligation or correspondence broken: widening the search for a failing input")
         for i in range(3):
